@@ -1359,6 +1359,9 @@ class Node:
         if style == "list":
             if repr is None:
                 repr = self.DEFAULT_RENDER_REPR
+            if not self._parent:
+                # Never render the system root (the title is rendered by the caller)
+                add_self = False
             for n in self.iterator(add_self=add_self):
                 if callable(repr):
                     yield repr(n)
